@@ -8,17 +8,17 @@ package afpacket
 // interface asked for (C17) and the capture filter installed is the compilation of the given text for the link
 // type of the mode (C03), instruction by instruction.
 //@ func (*Source).WritePacketData
-//@   props C07 C05 C01 C11 C13 C15 C16 C19
+//@   props C07 C05 C01 C11 C13 C15 C16 C19 C12
 //@   observe WritePacketData
 //@   entry row write: [call WritePacketData(s.handle, pkt) as (e)] when ret == e -> exit
 
 //@ func (*Source).ReadPacketData
-//@   props C20 C06 C03 C16
+//@   props C20 C06 C03 C16 C12
 //@   observe ZeroCopyReadPacketData
 //@   entry row read: [call ZeroCopyReadPacketData(s.handle) as (d, ci, e)] when ret0 == d && ret2 == e && ret1 != nil -> exit
 
 //@ func NewPacketSource
-//@   props C17 C03 C01 C05 C07 C11 C13 C15 C16 C19
+//@   props C17 C03 C01 C05 C07 C11 C13 C15 C16 C19 C12
 //@   observe NewTPacket
 //@   entry row fail: [call NewTPacket(bind_o) as (h, e)] when e != nil && ret0 == nil && ret1 == e
 //@                      && len(o) == 2 && istype(o[1], afp.OptInterface) && astype(o[1], afp.OptInterface) == iface -> exit
